@@ -533,15 +533,25 @@ def _emission(w, rep, armtag, names, body):
         if names == ['OP_TRY_EXCEPT'] and len(under) == 1 and isinstance(under[0], ast.Name):
             # the compiler side of the idiom
             pt = w.repo.func('parsing', 'parse_try')
+            from .feval import feval, Unknown, free_names
             for n in ast.walk(pt.node):
-                # `if <len> == 0: code += <len>.to_bytes(2, 'big')`: an absent EXCEPT is re-created empty
-                if isinstance(n, ast.If) and isinstance(n.test, ast.Compare) and isinstance(n.test.left, ast.Name) \
-                        and isinstance(n.test.ops[0], ast.Eq) and isinstance(n.test.comparators[0], ast.Constant) \
-                        and n.test.comparators[0].value == 0:
-                    v = n.test.left.id
-                    body = ast.unparse(ast.Module(body=n.body, type_ignores=[])).replace(' ', '')
-                    if f"+={v}.to_bytes(2,'big')" in body:
-                        allowed = True
+                # `if <len> == 0: code += <two zero bytes>`: an absent EXCEPT is re-created empty.  Both the test (true
+                # exactly for 0) and the appended bytes are decided by evaluation, not by their spelling.
+                if isinstance(n, ast.If) and len(free_names(n.test)) == 1:
+                    v = next(iter(free_names(n.test)))
+                    try:
+                        only_zero = [bool(feval(n.test, {v: k})) for k in range(0, 6)] == [True] + [False] * 5
+                    except Unknown:
+                        continue
+                    if not only_zero:
+                        continue
+                    for a in n.body:
+                        if isinstance(a, ast.AugAssign) and isinstance(a.op, ast.Add):
+                            try:
+                                if feval(a.value, {v: 0}) == b'\x00\x00':
+                                    allowed = True
+                            except Unknown:
+                                pass
         if not allowed:
             ok = False
             why = (f'`{ast.unparse(emit)[:40]}` is emitted only under a condition: on the other path operand bytes that '
